@@ -640,19 +640,63 @@ Proof. intros W E K M h1.
   - intros j _ Hn. apply nth_error_upd_neq. congruence. Qed.
 
 
+(* --- slots: a cell c' agrees with c on every slot other than the one addressed by s --- *)
+Definition slot_same (s : seg) (c c' : cell) : Prop :=
+  match s, c, c' with
+  | Key k, CObj kvs, CObj kvs' => forall k', k' <> k -> alookup k' kvs' = alookup k' kvs
+  | Idx n, CList l, CList l' =>
+      (forall j, j <> n -> (j < length l)%nat -> nth_error l' j = nth_error l j) /\
+      (forall j, (length l <= j)%nat -> j <> n -> (j < length l')%nat -> nth_error l' j = Some HNil)
+  | _, _, _ => False
+  end.
+Definition slot_kept (h h1 : heap) (id : nat) (s : seg) : Prop :=
+  exists c c1, nth_error h id = Some c /\ nth_error h1 id = Some c1 /\ slot_same s c c1.
+
+Lemma nth_error_repeat_list {A} (x : A) n j : (j < n)%nat -> nth_error (repeat_list x n) j = Some x.
+Proof. revert j. induction n as [|n IH]; intros j H; [lia|]. destruct j as [|j]; cbn [repeat_list nth_error]; [reflexivity|].
+  apply IH. lia. Qed.
+
+Lemma slot_same_aset k y kvs : slot_same (Key k) (CObj kvs) (CObj (aset k y kvs)).
+Proof. intros k' N. apply alookup_aset_neq. exact N. Qed.
+Lemma slot_same_pad l n y : (length l <= n)%nat -> slot_same (Idx n) (CList l) (CList (pad_add l (Z.of_nat n) y)).
+Proof. intros H. unfold pad_add. replace (Z.to_nat (Z.of_nat n - Z.of_nat (length l))) with (n - length l)%nat by lia. split.
+  - intros j _ Hj. apply nth_error_app1. exact Hj.
+  - intros j Hj Hn Hl. rewrite !app_length, repeat_list_length in Hl. cbn [length] in Hl.
+    rewrite nth_error_app2 by exact Hj. rewrite nth_error_app1 by (rewrite repeat_list_length; lia).
+    apply nth_error_repeat_list. lia. Qed.
+Lemma slot_same_upd l n y : slot_same (Idx n) (CList l) (CList (upd l n y)).
+Proof. split.
+  - intros j Hn _. apply nth_error_upd_neq. congruence.
+  - intros j Hj _ Hl. rewrite upd_length in Hl. lia. Qed.
+Lemma slot_same_refl_step h v s c x : nth_error h (cid v) = Some c -> step1 h v s = Ok x -> slot_same s c c.
+Proof. intros E S1. destruct s as [k|n]; destruct v as [| b | z | bits | str | id | id]; cbn [step1 cid] in *; try discriminate.
+  - unfold get_obj in S1. rewrite E in S1. destruct c as [l|kvs]; [discriminate|]. intros k' _. reflexivity.
+  - unfold get_list in S1. rewrite E in S1. destruct c as [l|kvs]; [|discriminate]. split; [reflexivity | intros; lia]. Qed.
+
+Lemma l_get_oob l i : Z.of_nat (length l) <= i -> l_get l i = Panic.
+Proof. intros H. unfold l_get, in_range.
+  assert (C : (0 <=? i) && (i <? Z.of_nat (length l)) = false) by lia. rewrite C. reflexivity. Qed.
+
 (* what one non-leaf step of SetTF establishes: it continues in heap h1 at container v1 *)
 Definition step_post (h : heap) (v : hval) (s s' : seg) (t : list seg) (h1 : heap) (v1 : hval) : Prop :=
   heap_wf h1 /\ same_kinds h h1 /\ (length h <= length h1)%nat /\ ref_ok h1 v1 /\ fits v1 s' = true /\ step1 h1 v s = Ok v1
   /\ (forall j, (j < length h)%nat -> j <> cid v -> nth_error h1 j = nth_error h j)
-  /\ ((h1 = h /\ step1 h v s = Ok v1) \/ visited h1 v1 (s' :: t) = [length h]).
+  /\ ((h1 = h /\ step1 h v s = Ok v1)
+      \/ (visited h1 v1 (s' :: t) = [length h] /\ forall x0, step1 h v s = Ok x0 -> fits x0 s' = false))
+  /\ slot_kept h h1 (cid v) s.
 
 Lemma fresh_step_post h v s s' t c c' :
   heap_wf h -> nth_error h (cid v) = Some c -> same_kind c c' ->
   (forall z, In z (members c') -> ref_ok h z \/ z = mk_ref s' (length h)) ->
   (forall h2, nth_error h2 (cid v) = Some c' -> step1 h2 v s = Ok (mk_ref s' (length h))) ->
+  slot_same s c c' ->
+  (forall x0, step1 h v s = Ok x0 -> fits x0 s' = false) ->
   step_post h v s s' t (upd (h ++ [mk_cell s']) (cid v) c') (mk_ref s' (length h)).
-Proof. intros W E K M R. destruct (fresh_step h v s s' t c c' W E K M R) as (A1 & A2 & A3 & A4 & A5 & A6 & A7 & A8).
-  unfold step_post. repeat (split; [assumption|]). right. exact A8. Qed.
+Proof. intros W E K M R Sl Mis. destruct (fresh_step h v s s' t c c' W E K M R) as (A1 & A2 & A3 & A4 & A5 & A6 & A7 & A8).
+  unfold step_post. repeat (split; [assumption|]). split; [right; split; [exact A8 | exact Mis]|].
+  exists c, c'. split; [exact E|]. split; [|exact Sl].
+  apply nth_error_upd_eq. rewrite app_length. cbn [length].
+  assert ((cid v < length h)%nat) by (apply nth_error_Some; congruence). lia. Qed.
 
 Lemma follow_post h v s s' t c v1 :
   heap_wf h -> nth_error h (cid v) = Some c -> step1 h v s = Ok v1 -> fits v1 s' = true ->
@@ -660,7 +704,8 @@ Lemma follow_post h v s s' t c v1 :
 Proof. intros W E S1 F. unfold step_post.
   split; [exact W|]. split; [apply same_kinds_refl|]. split; [lia|].
   split; [exact (proj1 (heap_wf_iff h) W _ _ E _ (step1_In _ _ _ _ _ E S1))|].
-  split; [exact F|]. split; [exact S1|]. split; [reflexivity|]. left. split; [reflexivity | exact S1]. Qed.
+  split; [exact F|]. split; [exact S1|]. split; [reflexivity|]. split; [left; split; [reflexivity | exact S1]|].
+  exists c, c. split; [exact E|]. split; [exact E|]. exact (slot_same_refl_step h v s c v1 E S1). Qed.
 
 Lemma wf_member h id c z : heap_wf h -> nth_error h id = Some c -> In z (members c) -> ref_ok h z.
 Proof. intros W E Hin. exact (proj1 (heap_wf_iff h) W _ _ E _ Hin). Qed.
@@ -676,6 +721,7 @@ Proof.
     destruct Hv as [l Hgl].
     assert (En : nth_error h (cid (HL id)) = Some (CList l)).
     { cbn [cid]. unfold get_list in Hgl. destruct (nth_error h id) as [[l0|kvs]|]; congruence. }
+    assert (S1eq : step1 h (HL id) (Idx n) = l_get l (Z.of_nat n)) by (cbn [step1]; rewrite Hgl; reflexivity).
     rewrite render_path_cons, set_tf_S. cbn [sigil]. rewrite Hgl.
     rewrite valid_head_word by apply Hw. rewrite (split_tf_word _ _ Hw).
     destruct s' as [k'|n']; cbv beta iota zeta;
@@ -689,25 +735,32 @@ Proof.
            ++ left. rewrite Hz. exact I.
            ++ right. exact Hz.
         -- intros h2 E2. cbn [step1 mk_ref]. cbn [cid] in E2. unfold get_list. rewrite E2. apply l_get_pad_add. lia.
+        -- apply slot_same_pad. lia.
+        -- intros x0 S0. rewrite S1eq, l_get_oob in S0 by lia. discriminate.
       * assert (C : in_range (Z.of_nat n) (length l) = true) by (unfold in_range; lia).
-        assert (Fresh : exists h1 v1,
+        assert (Fresh : (forall x0, step1 h (HL id) (Idx n) = Ok x0 -> fits x0 (Key k') = false) ->
+                  exists h1 v1,
                   (let '(h1, o) := alloc h (CObj []) in
                    match l_replace l (Z.of_nat n) (HO o) with
                    | Ok l' => set_tf f (set_list h1 id l') (HO o) (render_path (Key k' :: t)) x
                    | Panic => (h1, true)
                    end) = set_tf f h1 v1 (render_path (Key k' :: t)) x
                   /\ step_post h (HL id) (Idx n) (Key k') t h1 v1).
-        { unfold alloc, l_replace. rewrite C. cbv beta iota zeta. eexists _, _. split; [reflexivity|].
+        { intros Mis. unfold alloc, l_replace. rewrite C. cbv beta iota zeta. eexists _, _. split; [reflexivity|].
           apply (fresh_step_post h (HL id) (Idx n) (Key k') t (CList l) (CList (upd l (Z.to_nat (Z.of_nat n)) (HO (length h)))) W En I).
           -- cbn [members mk_ref]. intros z0 Hz. apply In_upd in Hz as [Hz|Hz].
              ++ left. exact (wf_member h _ _ z0 W En Hz).
              ++ right. exact Hz.
-          -- intros h2 E2. cbn [step1 mk_ref]. cbn [cid] in E2. unfold get_list. rewrite E2. apply l_get_upd. lia. }
-        rewrite l_typeof_get. destruct (l_get l (Z.of_nat n)) as [x'|] eqn:G; [|exact Fresh].
-        destruct x' as [| b | z | bits | str | o | o]; cbn [hkind]; cbv iota; try exact Fresh.
+          -- intros h2 E2. cbn [step1 mk_ref]. cbn [cid] in E2. unfold get_list. rewrite E2. apply l_get_upd. lia.
+          -- rewrite Nat2Z.id. apply slot_same_upd.
+          -- exact Mis. }
+        rewrite l_typeof_get. destruct (l_get l (Z.of_nat n)) as [x'|] eqn:G.
+        2:{ apply Fresh. intros x0 S0. rewrite S1eq in S0; try rewrite G in S0. discriminate. }
+        destruct x' as [| b | z | bits | str | o | o]; cbn [hkind]; cbv iota;
+          try (apply Fresh; intros x0 S0; rewrite S1eq in S0; try rewrite G in S0; injection S0 as <-; reflexivity).
         eexists _, _. split; [reflexivity|].
         apply (follow_post h (HL id) (Idx n) (Key k') t (CList l) (HO o) W En); [|reflexivity].
-        cbn [step1]. rewrite Hgl. exact G.
+        first [exact S1eq | rewrite S1eq; exact G].
     + (* next is an index: a list is needed at index n *)
       destruct (Z.of_nat (length l) <=? Z.of_nat n) eqn:Hc.
       * unfold alloc. cbv beta iota zeta. eexists _, _. split; [reflexivity|].
@@ -717,75 +770,94 @@ Proof.
            ++ left. rewrite Hz. exact I.
            ++ right. exact Hz.
         -- intros h2 E2. cbn [step1 mk_ref]. cbn [cid] in E2. unfold get_list. rewrite E2. apply l_get_pad_add. lia.
+        -- apply slot_same_pad. lia.
+        -- intros x0 S0. rewrite S1eq, l_get_oob in S0 by lia. discriminate.
       * assert (C : in_range (Z.of_nat n) (length l) = true) by (unfold in_range; lia).
-        assert (Fresh : exists h1 v1,
+        assert (Fresh : (forall x0, step1 h (HL id) (Idx n) = Ok x0 -> fits x0 (Idx n') = false) ->
+                  exists h1 v1,
                   (let '(h1, o) := alloc h (CList []) in
                    match l_replace l (Z.of_nat n) (HL o) with
                    | Ok l' => set_tf f (set_list h1 id l') (HL o) (render_path (Idx n' :: t)) x
                    | Panic => (h1, true)
                    end) = set_tf f h1 v1 (render_path (Idx n' :: t)) x
                   /\ step_post h (HL id) (Idx n) (Idx n') t h1 v1).
-        { unfold alloc, l_replace. rewrite C. cbv beta iota zeta. eexists _, _. split; [reflexivity|].
+        { intros Mis. unfold alloc, l_replace. rewrite C. cbv beta iota zeta. eexists _, _. split; [reflexivity|].
           apply (fresh_step_post h (HL id) (Idx n) (Idx n') t (CList l) (CList (upd l (Z.to_nat (Z.of_nat n)) (HL (length h)))) W En I).
           -- cbn [members mk_ref]. intros z0 Hz. apply In_upd in Hz as [Hz|Hz].
              ++ left. exact (wf_member h _ _ z0 W En Hz).
              ++ right. exact Hz.
-          -- intros h2 E2. cbn [step1 mk_ref]. cbn [cid] in E2. unfold get_list. rewrite E2. apply l_get_upd. lia. }
-        rewrite l_typeof_get. destruct (l_get l (Z.of_nat n)) as [x'|] eqn:G; [|exact Fresh].
-        destruct x' as [| b | z | bits | str | o | o]; cbn [hkind]; cbv iota; try exact Fresh.
+          -- intros h2 E2. cbn [step1 mk_ref]. cbn [cid] in E2. unfold get_list. rewrite E2. apply l_get_upd. lia.
+          -- rewrite Nat2Z.id. apply slot_same_upd.
+          -- exact Mis. }
+        rewrite l_typeof_get. destruct (l_get l (Z.of_nat n)) as [x'|] eqn:G.
+        2:{ apply Fresh. intros x0 S0. rewrite S1eq in S0; try rewrite G in S0. discriminate. }
+        destruct x' as [| b | z | bits | str | o | o]; cbn [hkind]; cbv iota;
+          try (apply Fresh; intros x0 S0; rewrite S1eq in S0; try rewrite G in S0; injection S0 as <-; reflexivity).
         eexists _, _. split; [reflexivity|].
         apply (follow_post h (HL id) (Idx n) (Idx n') t (CList l) (HL o) W En); [|reflexivity].
-        cbn [step1]. rewrite Hgl. exact G.
+        first [exact S1eq | rewrite S1eq; exact G].
   - (* an object, key k *)
     destruct Hv as [kvs Hgo].
     assert (En : nth_error h (cid (HO id)) = Some (CObj kvs)).
     { cbn [cid]. unfold get_obj in Hgo. destruct (nth_error h id) as [[l0|kvs0]|]; congruence. }
+    assert (S1eq : step1 h (HO id) (Key k) = match alookup k kvs with Some y => Ok y | None => Panic end)
+      by (cbn [step1]; rewrite Hgo; reflexivity).
     rewrite render_path_cons, set_tf_S. cbn [sigil]. rewrite Hgo.
     rewrite valid_head_word by apply Hw. rewrite (split_tf_word _ _ Hw).
     destruct s' as [k'|n']; cbv beta iota zeta;
       rewrite firstn_length_app, skipn_length_app; cbn [word].
-    + assert (Fresh : exists h1 v1,
+    + assert (Fresh : (forall x0, step1 h (HO id) (Key k) = Ok x0 -> fits x0 (Key k') = false) ->
+                  exists h1 v1,
                   (let '(h1, o) := alloc h (CObj []) in
                    set_tf f (set_obj h1 id (aset k (HO o) kvs)) (HO o) (render_path (Key k' :: t)) x)
                   = set_tf f h1 v1 (render_path (Key k' :: t)) x
                   /\ step_post h (HO id) (Key k) (Key k') t h1 v1).
-      { unfold alloc. cbv beta iota zeta. eexists _, _. split; [reflexivity|].
+      { intros Mis. unfold alloc. cbv beta iota zeta. eexists _, _. split; [reflexivity|].
         apply (fresh_step_post h (HO id) (Key k) (Key k') t (CObj kvs) (CObj (aset k (HO (length h)) kvs)) W En I).
         -- cbn [members mk_ref]. intros z0 Hz. apply In_aset_snd in Hz as [Hz|Hz].
            ++ left. exact (wf_member h _ _ z0 W En Hz).
            ++ right. exact Hz.
         -- intros h2 E2. cbn [step1 mk_ref]. cbn [cid] in E2. unfold get_obj. rewrite E2. unfold o_get.
-           rewrite alookup_aset_eq. reflexivity. }
-      destruct (alookup k kvs) as [x'|] eqn:G; [|exact Fresh].
-      destruct x' as [| b | z | bits | str | o | o]; try exact Fresh.
+           rewrite alookup_aset_eq. reflexivity.
+        -- apply slot_same_aset.
+        -- exact Mis. }
+      destruct (alookup k kvs) as [x'|] eqn:G.
+      2:{ apply Fresh. intros x0 S0. rewrite S1eq in S0; try rewrite G in S0. discriminate. }
+      destruct x' as [| b | z | bits | str | o | o];
+        try (apply Fresh; intros x0 S0; rewrite S1eq in S0; try rewrite G in S0; injection S0 as <-; reflexivity).
       eexists _, _. split; [reflexivity|].
       apply (follow_post h (HO id) (Key k) (Key k') t (CObj kvs) (HO o) W En); [|reflexivity].
-      cbn [step1]. rewrite Hgo. unfold o_get. rewrite G. reflexivity.
-    + assert (Fresh : exists h1 v1,
+      first [exact S1eq | rewrite S1eq, G; reflexivity].
+    + assert (Fresh : (forall x0, step1 h (HO id) (Key k) = Ok x0 -> fits x0 (Idx n') = false) ->
+                  exists h1 v1,
                   (let '(h1, o) := alloc h (CList []) in
                    set_tf f (set_obj h1 id (aset k (HL o) kvs)) (HL o) (render_path (Idx n' :: t)) x)
                   = set_tf f h1 v1 (render_path (Idx n' :: t)) x
                   /\ step_post h (HO id) (Key k) (Idx n') t h1 v1).
-      { unfold alloc. cbv beta iota zeta. eexists _, _. split; [reflexivity|].
+      { intros Mis. unfold alloc. cbv beta iota zeta. eexists _, _. split; [reflexivity|].
         apply (fresh_step_post h (HO id) (Key k) (Idx n') t (CObj kvs) (CObj (aset k (HL (length h)) kvs)) W En I).
         -- cbn [members mk_ref]. intros z0 Hz. apply In_aset_snd in Hz as [Hz|Hz].
            ++ left. exact (wf_member h _ _ z0 W En Hz).
            ++ right. exact Hz.
         -- intros h2 E2. cbn [step1 mk_ref]. cbn [cid] in E2. unfold get_obj. rewrite E2. unfold o_get.
-           rewrite alookup_aset_eq. reflexivity. }
-      destruct (alookup k kvs) as [x'|] eqn:G; [|exact Fresh].
-      destruct x' as [| b | z | bits | str | o | o]; try exact Fresh.
+           rewrite alookup_aset_eq. reflexivity.
+        -- apply slot_same_aset.
+        -- exact Mis. }
+      destruct (alookup k kvs) as [x'|] eqn:G.
+      2:{ apply Fresh. intros x0 S0. rewrite S1eq in S0; try rewrite G in S0. discriminate. }
+      destruct x' as [| b | z | bits | str | o | o];
+        try (apply Fresh; intros x0 S0; rewrite S1eq in S0; try rewrite G in S0; injection S0 as <-; reflexivity).
       eexists _, _. split; [reflexivity|].
       apply (follow_post h (HO id) (Key k) (Idx n') t (CObj kvs) (HL o) W En); [|reflexivity].
-      cbn [step1]. rewrite Hgo. unfold o_get. rewrite G. reflexivity.
+      first [exact S1eq | rewrite S1eq, G; reflexivity].
 Qed.
-
 
 Lemma set_tf_leaf s f h v x :
   ok_seg s = true -> heap_wf h -> ref_ok h v -> ref_ok h x -> fits v s = true ->
   exists h', set_tf (S f) h v (render_path [s]) x = (h', false)
              /\ heap_wf h' /\ same_kinds h h' /\ (length h <= length h')%nat /\ step1 h' v s = Ok x
-             /\ (forall j, (j < length h)%nat -> j <> cid v -> nth_error h' j = nth_error h j).
+             /\ (forall j, (j < length h)%nat -> j <> cid v -> nth_error h' j = nth_error h j)
+             /\ slot_kept h h' (cid v) s.
 Proof.
   intros Hs W Hv Hx Hf. pose proof (word_ok s Hs) as Hw.
   destruct v as [| b | z | bits | str | id | id]; destruct s as [k|n]; try discriminate Hf; clear Hf.
@@ -802,16 +874,18 @@ Proof.
         - exact (wf_member h _ _ z0 W En Hz).
         - rewrite Hz. exact I.
         - rewrite Hz. exact Hx. }
-      unfold set_list. cbn [cid] in *. repeat (split; [assumption|]). split; [|exact A5].
-      cbn [step1]. unfold get_list. rewrite A4. apply l_get_pad_add. lia.
+      unfold set_list. cbn [cid] in *. repeat (split; [assumption|]). split; [|split; [exact A5|]].
+      * cbn [step1]. unfold get_list. rewrite A4. apply l_get_pad_add. lia.
+      * eexists _, _. split; [exact En|]. split; [exact A4|]. apply slot_same_pad. lia.
     + assert (C : in_range (Z.of_nat n) (length l) = true) by (unfold in_range; lia).
       unfold l_replace. rewrite C. eexists. split; [reflexivity|].
       destruct (leaf_step h (HL id) (CList l) (CList (upd l (Z.to_nat (Z.of_nat n)) x)) W En I) as (A1 & A2 & A3 & A4 & A5).
       { cbn [members]. intros z0 Hz. apply In_upd in Hz as [Hz|Hz].
         - exact (wf_member h _ _ z0 W En Hz).
         - rewrite Hz. exact Hx. }
-      unfold set_list. cbn [cid] in *. repeat (split; [assumption|]). split; [|exact A5].
-      cbn [step1]. unfold get_list. rewrite A4. apply l_get_upd. lia.
+      unfold set_list. cbn [cid] in *. repeat (split; [assumption|]). split; [|split; [exact A5|]].
+      * cbn [step1]. unfold get_list. rewrite A4. apply l_get_upd. lia.
+      * eexists _, _. split; [exact En|]. split; [exact A4|]. rewrite Nat2Z.id. apply slot_same_upd.
   - destruct Hv as [kvs Hgo].
     assert (En : nth_error h (cid (HO id)) = Some (CObj kvs)).
     { cbn [cid]. unfold get_obj in Hgo. destruct (nth_error h id) as [[l0|kvs0]|]; congruence. }
@@ -823,56 +897,83 @@ Proof.
     { cbn [members]. intros z0 Hz. apply In_aset_snd in Hz as [Hz|Hz].
       - exact (wf_member h _ _ z0 W En Hz).
       - rewrite Hz. exact Hx. }
-    unfold set_obj. cbn [cid] in *. repeat (split; [assumption|]). split; [|exact A5].
-    cbn [step1]. unfold get_obj. rewrite A4. unfold o_get. rewrite alookup_aset_eq. reflexivity.
+    unfold set_obj. cbn [cid] in *. repeat (split; [assumption|]). split; [|split; [exact A5|]].
+    * cbn [step1]. unfold get_obj. rewrite A4. unfold o_get. rewrite alookup_aset_eq. reflexivity.
+    * eexists _, _. split; [exact En|]. split; [exact A4|]. apply slot_same_aset.
 Qed.
 
 Lemma visited_cons h v s t : fits v s = true ->
   visited h v (s :: t) = cid v :: match step1 h v s with Ok x => visited h x t | Panic => [] end.
 Proof. intros F. cbn [visited]. rewrite F. reflexivity. Qed.
 
-(* the general statement: any sufficient fuel; also says which cells may have changed *)
+(* the slots (container id, segment) an existing navigation reads *)
+Fixpoint slots (h : heap) (v : hval) (p : list seg) : list (nat * seg) :=
+  match p with
+  | [] => []
+  | s :: t => if fits v s
+              then (cid v, s) :: match step1 h v s with Ok x => slots h x t | Panic => [] end
+              else []
+  end.
+Lemma slots_cons h v s t : fits v s = true ->
+  slots h v (s :: t) = (cid v, s) :: match step1 h v s with Ok x => slots h x t | Panic => [] end.
+Proof. intros F. cbn [slots]. rewrite F. reflexivity. Qed.
+Lemma slots_misfit h v s t : fits v s = false -> slots h v (s :: t) = [].
+Proof. intros F. cbn [slots]. rewrite F. reflexivity. Qed.
+
+(* the general statement: any sufficient fuel; also says which cells may have changed, and which slots in them *)
 Lemma set_tf_gen : forall p, p <> [] -> forallb ok_seg p = true ->
   forall fuel h v x, (length (render_path p) < fuel)%nat ->
   heap_wf h -> ref_ok h v -> ref_ok h x -> starts_ok v p -> NoDup (visited h v p) ->
   exists h', set_tf fuel h v (render_path p) x = (h', false)
              /\ heap_wf h' /\ same_kinds h h' /\ (length h <= length h')%nat
              /\ (forall j, (j < length h)%nat -> ~ In j (visited h v p) -> nth_error h' j = nth_error h j)
-             /\ nav h' v p = Ok x.
+             /\ nav h' v p = Ok x
+             /\ (forall id s0, In (id, s0) (slots h v p) -> slot_kept h h' id s0).
 Proof.
   induction p as [|s t IH]; intros Hne Hok fuel h v x Hfu W Hv Hx Hst Hnd; [congruence|].
   cbn [forallb] in Hok. apply andb_true_iff in Hok as [Hs Ht].
   apply starts_ok_fits in Hst. rename Hst into Hfit.
   destruct fuel as [|f]; [lia|].
   pose proof (visited_cons h v s t Hfit) as Hvis.
+  pose proof (slots_cons h v s t Hfit) as Hslo.
   destruct t as [|s' t'].
-  - destruct (set_tf_leaf s f h v x Hs W Hv Hx Hfit) as (h' & E & W' & SK & L & S1 & Fr).
-    exists h'. split; [exact E|]. split; [exact W'|]. split; [exact SK|]. split; [exact L|]. split.
+  - destruct (set_tf_leaf s f h v x Hs W Hv Hx Hfit) as (h' & E & W' & SK & L & S1 & Fr & Sl).
+    exists h'. split; [exact E|]. split; [exact W'|]. split; [exact SK|]. split; [exact L|]. split; [|split].
     + intros j Hj Hn. apply Fr; [exact Hj|]. intros ->. apply Hn. rewrite Hvis. left. reflexivity.
     + rewrite nav_cons, S1. reflexivity.
+    + intros id s0 Hin. rewrite Hslo in Hin. destruct Hin as [Hin|Hin].
+      * injection Hin as <- <-. exact Sl.
+      * destruct (step1 h v s); contradiction.
   - destruct (set_tf_step s s' t' f h v x Hs W Hv Hfit) as (h1 & v1 & E & P).
-    destruct P as (W1 & SK1 & L1 & R1 & F1 & S1 & Fr1 & D).
+    destruct P as (W1 & SK1 & L1 & R1 & F1 & S1 & Fr1 & D & Sl).
     destruct (fits_cell h v s Hfit Hv) as (c & Ec & _).
     assert (Hlt : (cid v < length h)%nat) by (apply nth_error_Some; congruence).
     assert (Hnd1 : NoDup (visited h1 v1 (s' :: t')) /\ ~ In (cid v) (visited h1 v1 (s' :: t'))).
-    { destruct D as [[-> S0]|D].
+    { destruct D as [[-> S0]|[D _]].
       - rewrite Hvis, S0 in Hnd. inversion Hnd as [|a l0 Hni Hnd']. subst. split; assumption.
       - rewrite D. split; [constructor; [intros []|constructor]|]. intros [Hc|[]]. lia. }
     destruct Hnd1 as [Hnd1 Hni1].
     destruct (IH ltac:(discriminate) Ht f h1 v1 x (render_tail_fuel _ _ _ Hfu) W1 R1 (ref_ok_mono _ _ _ SK1 Hx)
-                 (proj2 (starts_ok_fits v1 s' t') F1) Hnd1) as (h' & E' & W' & SK' & L' & Fr' & N').
+                 (proj2 (starts_ok_fits v1 s' t') F1) Hnd1) as (h' & E' & W' & SK' & L' & Fr' & N' & SF').
+    assert (Ecid : nth_error h' (cid v) = nth_error h1 (cid v)) by (apply Fr'; [lia | exact Hni1]).
     exists h'. rewrite E. split; [exact E'|]. split; [exact W'|].
-    split; [exact (same_kinds_trans _ _ _ SK1 SK')|]. split; [lia|]. split.
+    split; [exact (same_kinds_trans _ _ _ SK1 SK')|]. split; [lia|]. split; [|split].
     + intros j Hj Hn.
       assert (Hjc : j <> cid v) by (intros ->; apply Hn; rewrite Hvis; left; reflexivity).
       rewrite <- (Fr1 j Hj Hjc). apply Fr'; [lia|].
-      destruct D as [[-> S0]|D].
+      destruct D as [[-> S0]|[D _]].
       * intros Hin. apply Hn. rewrite Hvis, S0. right. exact Hin.
       * rewrite D. intros [Hc|[]]. lia.
-    + rewrite nav_cons. rewrite (step1_ext h1 h' v s) by (apply Fr'; [lia | exact Hni1]).
+    + rewrite nav_cons. rewrite (step1_ext h1 h' v s) by exact Ecid.
       rewrite S1. exact N'.
+    + intros id s0 Hin. rewrite Hslo in Hin. destruct Hin as [Hin|Hin].
+      * injection Hin as <- <-. destruct Sl as (c0 & c1 & A & B & C).
+        exists c0, c1. split; [exact A|]. split; [rewrite Ecid; exact B | exact C].
+      * destruct D as [[-> S0]|[D Mis]].
+        -- rewrite S0 in Hin. exact (SF' id s0 Hin).
+        -- destruct (step1 h v s) as [x0|] eqn:S0; [|contradiction].
+           rewrite (slots_misfit h x0 s' t' (Mis x0 eq_refl)) in Hin. contradiction.
 Qed.
-
 
 (* SetTF on a well-formed path never panics, keeps the heap well-formed, and GetTF reads the value back.
    Added hypothesis (necessary, see the counterexample below): the existing navigation along p does not pass
@@ -884,7 +985,7 @@ Theorem set_tf_ok : forall p h v x, heap_wf h -> ref_ok h v -> ref_ok h x -> p <
 Proof.
   intros p h v x W Hv Hx Hne Hok Hst Hnd.
   destruct (set_tf_gen p Hne Hok (S (length (render_path p))) h v x ltac:(lia) W Hv Hx Hst Hnd)
-    as (h' & E & W' & SK & L & Fr & N).
+    as (h' & E & W' & SK & L & Fr & N & _).
   rewrite E. split; [reflexivity|]. split; [exact W'|].
   rewrite (get_tf_nav p h' v Hne Hok). exact N.
 Qed.
@@ -1063,11 +1164,11 @@ Proof.
   destruct fuel as [|f]; [lia|].
   pose proof (visited_cons h v s t Hfit) as Hvis.
   destruct t as [|s' t'].
-  - destruct (set_tf_leaf s f h v x Hs W Hv Hx Hfit) as (h' & E & W' & SK & L & S1 & Fr).
+  - destruct (set_tf_leaf s f h v x Hs W Hv Hx Hfit) as (h' & E & W' & SK & L & S1 & Fr & Sl).
     exists h'. split; [exact E|]. split; [exact W'|]. split; [exact SK|]. split; [exact L|].
     intros j Hj Hn. apply Fr; [exact Hj|]. intros ->. apply Hn. rewrite Hvis. left. reflexivity.
   - destruct (set_tf_step s s' t' f h v x Hs W Hv Hfit) as (h1 & v1 & E & P).
-    destruct P as (W1 & SK1 & L1 & R1 & F1 & S1 & Fr1 & D).
+    destruct P as (W1 & SK1 & L1 & R1 & F1 & S1 & Fr1 & D & Sl).
     destruct (IH ltac:(discriminate) Ht f h1 v1 x (render_tail_fuel _ _ _ Hfu) W1 R1 (ref_ok_mono _ _ _ SK1 Hx)
                  (proj2 (starts_ok_fits v1 s' t') F1)) as (h' & E' & W' & SK' & L' & Fr').
     exists h'. rewrite E. split; [exact E'|]. split; [exact W'|].
@@ -1075,7 +1176,7 @@ Proof.
     intros j Hj Hn.
     assert (Hjc : j <> cid v) by (intros ->; apply Hn; rewrite Hvis; left; reflexivity).
     rewrite <- (Fr1 j Hj Hjc). apply Fr'; [lia|].
-    destruct D as [[-> S0]|D].
+    destruct D as [[-> S0]|[D _]].
     + intros Hin. apply Hn. rewrite Hvis, S0. right. exact Hin.
     + rewrite D. intros [Hc|[]]. lia.
 Qed.
@@ -1162,6 +1263,98 @@ Corollary set_tf_ok_acyclic : forall p h v x, acyclic h -> heap_wf h -> ref_ok h
 Proof.
   intros p h v x [rank Hr] W Hv Hx Hne Hok Hst.
   apply set_tf_ok; try assumption. exact (proj2 (visited_acyclic h rank Hr p v)).
+Qed.
+
+
+(* ================= slot frame: in the cells it visits, SetTF changes only the addressed slot ================= *)
+Lemma step1_Ok_fits h v s x : step1 h v s = Ok x -> fits v s = true.
+Proof. destruct s; destruct v; cbn [step1 fits]; intros H; try discriminate; reflexivity. Qed.
+
+Lemma slots_prefix : forall q h v s t c, nav h v q = Ok c -> fits c s = true -> In (cid c, s) (slots h v (q ++ s :: t)).
+Proof. induction q as [|s0 q IH]; intros h v s t c Hn Hf.
+  - cbn [nav] in Hn. injection Hn as ->. cbn [app]. rewrite slots_cons by exact Hf. left. reflexivity.
+  - rewrite nav_cons in Hn. destruct (step1 h v s0) as [x0|] eqn:S0; [|discriminate].
+    cbn [app]. rewrite slots_cons by exact (step1_Ok_fits _ _ _ _ S0). rewrite S0. right. apply IH; assumption. Qed.
+
+Theorem set_tf_slot_frame : forall p h v x, heap_wf h -> ref_ok h v -> ref_ok h x -> p <> [] -> forallb ok_seg p = true -> starts_ok v p ->
+  NoDup (visited h v p) ->
+  let h' := fst (set_tf (S (length (render_path p))) h v (render_path p) x) in
+  forall q s t c, p = q ++ s :: t -> nav h v q = Ok c ->
+    match c, s with
+    | HO id, Key k => forall kvs, get_obj h id = Some kvs ->
+        exists kvs', get_obj h' id = Some kvs' /\ forall k', k' <> k -> alookup k' kvs' = alookup k' kvs
+    | HL id, Idx n => forall l, get_list h id = Some l ->
+        exists l', get_list h' id = Some l' /\
+          (forall j, j <> n -> (j < length l)%nat -> nth_error l' j = nth_error l j) /\
+          (forall j, (length l <= j)%nat -> j <> n -> (j < length l')%nat -> nth_error l' j = Some HNil)
+    | _, _ => True
+    end.
+Proof.
+  intros p h v x W Hv Hx Hne Hok Hst Hnd.
+  destruct (set_tf_gen p Hne Hok (S (length (render_path p))) h v x ltac:(lia) W Hv Hx Hst Hnd)
+    as (h' & E & W' & SK & L & Fr & N & SF).
+  rewrite E. cbn [fst]. intros q s t c Hp Hnav. rewrite Hp in SF.
+  destruct c as [| b | z | bits | str | id | id]; destruct s as [k|n]; try exact I.
+  - intros l Hgl.
+    destruct (SF id (Idx n) (slots_prefix q h v (Idx n) t (HL id) Hnav eq_refl)) as (c0 & c1 & A & B & C).
+    unfold get_list in Hgl. rewrite A in Hgl. destruct c0 as [l0|kvs0]; [|discriminate]. injection Hgl as ->.
+    destruct c1 as [l1|kvs1]; [|cbn [slot_same] in C; contradiction].
+    exists l1. split; [unfold get_list; rewrite B; reflexivity | exact C].
+  - intros kvs Hgo.
+    destruct (SF id (Key k) (slots_prefix q h v (Key k) t (HO id) Hnav eq_refl)) as (c0 & c1 & A & B & C).
+    unfold get_obj in Hgo. rewrite A in Hgo. destruct c0 as [l0|kvs0]; [discriminate|]. injection Hgo as ->.
+    destruct c1 as [l1|kvs1]; [cbn [slot_same] in C; contradiction|].
+    exists kvs1. split; [unfold get_obj; rewrite B; reflexivity | exact C].
+Qed.
+
+(* consequence: a navigation that reads none of the slots SetTF addresses still gives the same result *)
+Lemma visited_slots h v p id : In id (visited h v p) -> exists s, In (id, s) (slots h v p).
+Proof. revert v. induction p as [|s t IH]; intros v; cbn [visited slots]; [contradiction|].
+  destruct (fits v s); [|contradiction]. intros [<-|Hin]; [exists s; left; reflexivity|].
+  destruct (step1 h v s) as [x|]; [|contradiction]. destruct (IH x Hin) as [s1 H1]. exists s1. right. exact H1. Qed.
+
+Lemma slot_same_step1 h h' v s s2 c c' x :
+  nth_error h (cid v) = Some c -> nth_error h' (cid v) = Some c' -> slot_same s c c' -> s2 <> s ->
+  step1 h v s2 = Ok x -> step1 h' v s2 = Ok x.
+Proof. intros E E' Sl Ns S1.
+  destruct s2 as [k2|n2]; destruct v as [| b | z | bits | str | id | id]; cbn [step1 cid] in *; try discriminate.
+  - unfold get_obj in *. rewrite E in S1. rewrite E'. destruct c as [l|kvs]; [discriminate|].
+    destruct s as [k|n]; [|cbn [slot_same] in Sl; contradiction].
+    destruct c' as [l'|kvs']; [cbn [slot_same] in Sl; contradiction|]. cbn [slot_same] in Sl.
+    unfold o_get in *. rewrite Sl by congruence. exact S1.
+  - unfold get_list in *. rewrite E in S1. rewrite E'. destruct c as [l|kvs]; [|discriminate].
+    destruct s as [k|n]; [cbn [slot_same] in Sl; contradiction|].
+    destruct c' as [l'|kvs']; [|cbn [slot_same] in Sl; contradiction]. destruct Sl as [Sl1 _].
+    unfold l_get in *. destruct (in_range (Z.of_nat n2) (length l)) eqn:R; [|discriminate].
+    rewrite Nat2Z.id in *. destruct (nth_error l n2) as [y|] eqn:N; [|discriminate].
+    assert (Hlt : (n2 < length l)%nat) by (apply nth_error_Some; congruence).
+    assert (N' : nth_error l' n2 = Some y) by (rewrite Sl1; [exact N | congruence | exact Hlt]).
+    assert (Hlt' : (n2 < length l')%nat) by (apply nth_error_Some; congruence).
+    assert (R' : in_range (Z.of_nat n2) (length l') = true) by (unfold in_range; lia).
+    rewrite R', N'. exact S1. Qed.
+
+Theorem set_tf_other_paths : forall p h v x, heap_wf h -> ref_ok h v -> ref_ok h x -> p <> [] -> forallb ok_seg p = true -> starts_ok v p ->
+  NoDup (visited h v p) ->
+  let h' := fst (set_tf (S (length (render_path p))) h v (render_path p) x) in
+  forall p2 v2 y, nav h v2 p2 = Ok y ->
+    (forall id s s2, In (id, s) (slots h v p) -> In (id, s2) (slots h v2 p2) -> s2 <> s) ->
+    nav h' v2 p2 = Ok y.
+Proof.
+  intros p h v x W Hv Hx Hne Hok Hst Hnd.
+  destruct (set_tf_gen p Hne Hok (S (length (render_path p))) h v x ltac:(lia) W Hv Hx Hst Hnd)
+    as (h' & E & W' & SK & L & Fr & N & SF).
+  rewrite E. cbn [fst]. clear E N.
+  induction p2 as [|s2 t2 IH2]; intros v2 y Hn Hdis; [exact Hn|].
+  rewrite nav_cons in Hn. rewrite nav_cons. destruct (step1 h v2 s2) as [x2|] eqn:S2; [|discriminate].
+  pose proof (step1_Ok_fits _ _ _ _ S2) as F2. rewrite (slots_cons h v2 s2 t2 F2), S2 in Hdis.
+  assert (S2' : step1 h' v2 s2 = Ok x2).
+  { destruct (in_dec Nat.eq_dec (cid v2) (visited h v p)) as [Hin|Hni].
+    - destruct (visited_slots _ _ _ _ Hin) as [s Hs]. destruct (SF _ _ Hs) as (c0 & c1 & A & B & C).
+      apply (slot_same_step1 h h' v2 s s2 c0 c1 x2 A B C); [|exact S2].
+      apply (Hdis (cid v2) s s2 Hs). left. reflexivity.
+    - destruct (step1_Ok_cell h v2 s2 x2 S2) as (c & Ec & _).
+      rewrite (step1_ext h h' v2 s2); [exact S2|]. apply Fr; [|exact Hni]. apply nth_error_Some. congruence. }
+  rewrite S2'. apply IH2; [exact Hn|]. intros id s s0 H1 H2. apply (Hdis id s s0 H1). right. exact H2.
 Qed.
 
 End TF.
